@@ -119,6 +119,10 @@ theorem delegations_pinned : Gen.AsyncPairs.delegations = [
 /-- no class defines an `*_async` method without its synchronous twin -/
 theorem no_async_only : Gen.AsyncPairs.asyncOnly = [] := by decide
 
+/-- every call of a `*_async` name inside an async half is awaited on the spot (each async half also carries its
+own kernel-checked `pK_awaited` obligation in `Gen`) -/
+theorem all_async_calls_awaited : Gen.AsyncPairs.unawaitedPairs = [] := by decide
+
 /-- resolved through the real MRO of every class of the package, the two halves of a pair always come
 from the same class (or the async half is the base-class delegating default) -/
 theorem mro_consistent : Gen.AsyncPairs.mroMismatches = [] := by decide
